@@ -840,7 +840,10 @@ impl Ty {
                 8 => Some(i8::MAX as u64),
                 16 => Some(i16::MAX as u64),
                 32 => Some(i32::MAX as u64),
-                64 | 128 => Some(i64::MAX as u64),
+                // an `isize` (bit-width 255) is checked as if it were 64 bits wide
+                64 | 255 => Some(i64::MAX as u64),
+                // every literal (they are `u64`s) fits into an `i128`
+                128 => Some(u64::MAX),
                 _ => None,
             },
             Ty::UInt(bit_width) => match bit_width {
